@@ -556,10 +556,12 @@ Steps(S) ==
 
 \* ---------------------------------------------------------------- the specification
 InitState == [ctl |-> <<[k |-> "start"]>>, vals |-> <<>>, scopes |-> <<EmptyScope>>, glob |-> [x \in {} |-> NilV],
-              heap |-> <<>>, out |-> <<>>, status |-> [s |-> "run"], ch |-> <<>>]
+              heap |-> <<>>, out |-> <<>>, status |-> [s |-> "run"], ch |-> <<>>, steps |-> 0]
 MInit == p \in 1..Len(Progs) /\ st = InitState
+\* steps counts machine steps (model-checking configurations bound it so that a program that does not
+\* terminate cannot keep TLC busy for ever)
 MNext == /\ st.status.s = "run" /\ st.ctl # <<>>
-         /\ st' \in Steps(st)
+         /\ \E n \in Steps(st) : st' = [n EXCEPT !.steps = st.steps + 1]
          /\ UNCHANGED p
 MSpec == MInit /\ [][MNext]_mvars
 
